@@ -120,14 +120,19 @@ def lazify_task(task, start=True):
             # (e.g. bag.concat fused with the partition it points to): that node
             # then is the real output and has to stay reified as well, or the
             # task would hand one lazy iterator to all of its dependents
-            outputs = {outkey}
-            out = subgraph[outkey]
-            while isinstance(out, Alias) and out.target in subgraph:
-                outputs.add(out.target)
-                out = subgraph[out.target]
-            subgraph = {
-                k: lazify_task(v, k in outputs) for k, v in subgraph.items()
-            }
+            # A node that is referenced more than once inside the fused task, e.g.
+            # db.zip(b, b) or b.map(add, b), has to stay reified for the same
+            # reason: all references receive the very same object
+            nrefs: defaultdict = defaultdict(int)
+            for v in subgraph.values():
+                _count_references(v, nrefs)
+            keep = {outkey} | {k for k, n in nrefs.items() if n > 1 and k in subgraph}
+            for k in list(keep):
+                node = subgraph[k]
+                while isinstance(node, Alias) and node.target in subgraph:
+                    keep.add(node.target)
+                    node = subgraph[node.target]
+            subgraph = {k: lazify_task(v, k in keep) for k, v in subgraph.items()}
             return Task(
                 task.key,
                 _execute_subgraph,
@@ -154,6 +159,25 @@ def lazify_task(task, start=True):
             return lazify_task(*tail, start=False)
         else:
             return (head,) + tuple(lazify_task(arg, False) for arg in tail)
+
+
+def _count_references(node, counts):
+    """Count, with multiplicity, the keys referenced by a task-spec node"""
+    if isinstance(node, TaskRef):
+        counts[node.key] += 1
+    elif isinstance(node, Alias):
+        counts[node.target] += 1
+    elif isinstance(node, Task):
+        for arg in node.args:
+            _count_references(arg, counts)
+        for arg in node.kwargs.values():
+            _count_references(arg, counts)
+    elif isinstance(node, (list, tuple)):
+        for arg in node:
+            _count_references(arg, counts)
+    elif isinstance(node, dict):
+        for arg in node.values():
+            _count_references(arg, counts)
 
 
 def lazify(dsk):
